@@ -483,6 +483,8 @@ def rule_guard(repo):
             for a in atoms:
                 if a[0] == "ord" and a[1] == ("param", 1) and repo.static_of(a[2]) == M:
                     return asg[a] == "L"
+                if a[0] == "ord" and a[2] == ("param", 1) and repo.static_of(a[1]) == M:
+                    return asg[a] == "G"
             return "?"
 
         def eff_new(res, asg, tb, b=b):
